@@ -120,6 +120,15 @@ C05_AckMeansRegisteredOrCompleted(Q, b, cbid) ==
 (* lease or time-out has been reached on the server clock while it was enqueued or   *)
 (* claimed with that counter.                                                        *)
 (***************************************************************************)
+\* lease bookkeeping: a pair <<task, counter>> is "lapsed" when its lease or time-out has been
+\* reached on the server clock since the lease was last (re)started; a new claim starts a
+\* new lease of the same counter
+LapsedAt(S, t) == {<<x, S.tasks[x].counter>> : x \in ExpirableTasks(S, TaskBusy, t)}
+LeaseRestarts(P, Q) ==
+  {<<x, Q.tasks[x].counter>> : x \in {y \in DOMAIN Q.tasks :
+      Q.tasks[y].state = T_CLAIMED /\ (~ Has(P.tasks, y) \/ P.tasks[y].state # T_CLAIMED)}}
+NextLapsed(lapsed, P, Q, t) == (lapsed \ LeaseRestarts(P, Q)) \cup LapsedAt(Q, t)
+
 C07_CountersNeverDecrease(P, Q) ==
   \A x \in (DOMAIN P.tasks) \cap (DOMAIN Q.tasks) : Q.tasks[x].counter >= P.tasks[x].counter
 
